@@ -571,7 +571,16 @@ impl Locale {
             if let Some((base_key, rule_type, plural_form)) = Self::is_possible_plural(&key, &value)
             {
                 let map = possible_plurals.entry(base_key.to_owned()).or_default();
-                map.insert(plural_form, (key, rule_type, value));
+                // same form twice for the same key: one is cardinal and the other ordinal (`key_one` and `key_ordinal_one`)
+                let form_key = key.clone();
+                if map.insert(plural_form, (key, rule_type, value)).is_some() {
+                    key_path.push_key(form_key);
+                    return Err(Error::ConflictingPluralRuleType {
+                        locale: locale.clone(),
+                        key_path: std::mem::take(key_path),
+                    }
+                    .into());
+                }
             } else {
                 self.keys.insert(key, value);
             }
